@@ -729,7 +729,7 @@ def stmts(e, lets=None):
                 p = st["pat"]
                 if p.get("k") == "Bind" and "sub" not in p and "init" in st:
                     mut = is_mut_binding(p)
-                    if not mut and "else" not in st:
+                    if not mut and "else" not in st and not lets.get("__noinline__") and _inlinable(st["init"]):
                         lets[p["name"]] = st["init"]
                     out.append(("let", p["name"], mut, sx(st["init"], lets), span_str(st["span"])))
                 else:
@@ -768,6 +768,16 @@ def stmts(e, lets=None):
     if k == "Continue":
         return [("continue", sp)]
     return [("expr", sx(e, lets), sp)]
+
+
+def _inlinable(init):
+    """only side-effect free, branch-free initialisers are inlined at their uses"""
+    for n in walk(init):
+        if n.get("k") in ("Match", "If", "Loop", "Block", "Assign", "AssignOp", "Return", "Break", "Let"):
+            return False
+        if n.get("k") == "Borrow" and n.get("mut"):
+            return False
+    return True
 
 
 def _pat_desc(p):
